@@ -3,6 +3,7 @@ package main
 import (
 	"fmt"
 	"os"
+	"sort"
 	"strconv"
 	"strings"
 )
@@ -123,6 +124,14 @@ func main() {
 			}
 		}
 		fmt.Println(r.Stats)
+		var ks []string
+		for k, v := range errTolerances {
+			ks = append(ks, v+" | "+k)
+		}
+		sort.Strings(ks)
+		for _, k := range ks {
+			fmt.Println("TOLERATES", k)
+		}
 		os.Exit(0)
 	case "partialcopy":
 		p, err := Load(os.Args[2])
